@@ -1510,6 +1510,35 @@ fn exh_history(i: u64) -> History {
 
 // ------------------------------------------------------------------------------------------------
 
+/// `IpFragRange::merge` (public; the pool's completeness detection rests on it) over all pairs of ranges
+/// with bounds from a small grid that includes the ends of the u16 domain: `Some(hull)` exactly when the
+/// ranges overlap or touch (a byte range [start, end): touching = one ends where the other starts).
+fn frag_range_merge(ctx: &mut Ctx) -> Result<(), Failure> {
+    use etherparse::defrag::IpFragRange;
+    let grid: [u16; 12] = [0, 1, 2, 3, 8, 9, 16, 1480, 32768, 65527, 65534, 65535];
+    for &s1 in &grid {
+        for &e1 in grid.iter().filter(|e| **e >= s1) {
+            for &s2 in &grid {
+                for &e2 in grid.iter().filter(|e| **e >= s2) {
+                    ctx.eval(1);
+                    let (a, b) = (IpFragRange { start: s1, end: e1 }, IpFragRange { start: s2, end: e2 });
+                    let got = match catch(|| a.merge(b)) {
+                        Ok(g) => g,
+                        Err(p) => return ctx.fail(Failure::new("C11|IpFragRange::merge|panic".to_string(), "panic", format!("{:?}.merge({:?}): {}", a, b, p), json!({"k": "frag_range_merge"}))),
+                    };
+                    let connected = s1.max(s2) <= e1.min(e2);
+                    let want = connected.then(|| IpFragRange { start: s1.min(s2), end: e1.max(e2) });
+                    if got != want {
+                        return ctx.fail(Failure::new("C11|IpFragRange::merge|hull-iff-connected".to_string(), "two sections merge into their hull exactly when they overlap or touch", format!("{:?}.merge({:?}) = {:?}, expected {:?}", a, b, got, want), json!({"k": "frag_range_merge"})));
+                    }
+                }
+            }
+        }
+    }
+    ctx.class("frag-range-merge:grid");
+    Ok(())
+}
+
 impl Property for C11 {
     fn id(&self) -> &'static str {
         "C11"
@@ -1535,6 +1564,9 @@ impl Property for C11 {
         run_history(&h, ctx).map_err(|f| minimise(&h, f, ctx))
     }
     fn exhaustive(&self, _tier: Tier, shard: u64, nshards: u64, ctx: &mut Ctx) -> Result<(), Failure> {
+        if shard == 0 {
+            frag_range_merge(ctx)?;
+        }
         let mut i = shard;
         while i < EXH_A + EXH_B {
             ctx.mark_exh(0, i);
@@ -1545,6 +1577,9 @@ impl Property for C11 {
         Ok(())
     }
     fn replay(&self, input: &Value, ctx: &mut Ctx) -> Result<(), Failure> {
+        if input.get("k").and_then(|x| x.as_str()) == Some("frag_range_merge") {
+            return frag_range_merge(ctx);
+        }
         if let Some(e) = input.get("exh").and_then(|x| x.as_array()) {
             let i = e.get(1).and_then(|x| x.as_u64()).unwrap_or(0);
             return run_history(&exh_history(i.min(EXH_A + EXH_B - 1)), ctx);
